@@ -80,7 +80,7 @@ def install(cx, rec):
     shim = vars(C)['np']
     from symx.npshim import NPShim
     cshim = NPShim()
-    cshim.__dict__['_linalg_over'] = dict(cholesky=cholesky, inv=inv, eigh=lambda M, **k: eigh(M), multi_dot=lambda ops: functools.reduce(np.dot, ops))
+    cshim.__dict__['_linalg_over'] = dict(det=_det, cholesky=cholesky, inv=inv, eigh=lambda M, **k: eigh(M), multi_dot=lambda ops: functools.reduce(np.dot, ops))
     cx.patch(C, 'np', cshim)
     contracts.install_scipy(cx, 'pyerrors.correlators', **{'linalg.eigh': eigh})
     import pyerrors as pe
@@ -237,7 +237,95 @@ def h_bad(cx):
         cx.fail('N=1 accepted')
 
 
-HARNESSES = dict(gevp=h_gevp, bad=h_bad, prune=h_prune)
+def _det(M):
+    """determinant by the Leibniz formula (the definition; stands for np.linalg.det on symbolic entries)"""
+    import itertools
+    M = np.asarray(M, dtype=object)
+    n = M.shape[0]
+    tot = 0
+    for p in itertools.permutations(range(n)):
+        sgn = 1
+        for i in range(n):
+            for j in range(i + 1, n):
+                if p[i] > p[j]:
+                    sgn = -sgn
+        term = sgn
+        for i in range(n):
+            term = term * M[i, p[i]]
+        tot = tot + term
+    return tot
+
+
+REFS = {'eye': lambda N: np.eye(N), 'skew': lambda N: np.array([[2.0, 1.0, 0.0], [0.0, 1.0, 1.0], [1.0, 0.0, 3.0]])[:N, :N]}
+
+
+def h_sortvec(cx, N, T, ts, pattern, ref='sym'):
+    """_sort_vectors (sort='Eigenvector', arXiv:2004.10472): on every timeslice the returned order of the vectors must maximise
+    prod_s |det(reference with row s replaced by the vector placed at s)| over all orders, the vectors themselves are untouched,
+    the reference timeslice and undefined timeslices are passed through."""
+    import itertools
+    import pyerrors.correlators as C
+    rec = {}
+    install(cx, rec)
+    vec_set = []
+    for t in range(T):
+        if not pattern[t]:
+            vec_set.append(None)
+        elif t == ts and ref != 'sym':
+            vec_set.append(np.array(REFS[ref](N), dtype=object if cx.mode == 'sym' else float))
+        else:
+            vec_set.append(np.array([[cx.real('v%d_%d%d' % (t, k, i)) + (1.0 if i == k else 0.0) for i in range(N)] for k in range(N)], dtype=object if cx.mode == 'sym' else float))
+    R = np.asarray(vec_set[ts], dtype=object)
+    detf = _det if cx.mode == 'sym' else (lambda M: float(np.linalg.det(np.asarray(M, dtype=float))))
+    cx.assume(detf(R) != 0, 'reference vectors linearly independent')
+    for t in range(T):
+        if vec_set[t] is not None and t != ts:
+            cx.assume(detf(vec_set[t]) != 0, 'vectors of one timeslice linearly independent')
+    out = C._sort_vectors(list(vec_set), ts)
+    if not cx.expect(len(out) == T, 'one entry per timeslice'):
+        return
+
+    def same(a, b):
+        if cx.mode == 'sym':
+            return all(z3.simplify(tz(x) - tz(y)).eq(z3.RealVal(0)) if (isinstance(x, SV) or isinstance(y, SV)) else x == y for x, y in zip(a, b))
+        return bool(np.array_equal(np.asarray(a, dtype=float), np.asarray(b, dtype=float)))
+
+    def score(assign, vs):
+        """assign[k] = reference row that vector k replaces"""
+        s = 1
+        for k in range(N):
+            M = R.copy()
+            M[assign[k], :] = vs[k]
+            s = s * abs(detf(M))
+        return s
+    for t in range(T):
+        if vec_set[t] is None:
+            cx.expect(out[t] is None, 'undefined timeslice passed through [%d]' % t)
+            continue
+        if not cx.expect(out[t] is not None and len(out[t]) == N, 'N vectors [%d]' % t):
+            continue
+        vs = [vec_set[t][k] for k in range(N)]
+        pos = []
+        for k in range(N):
+            hit = [s for s in range(N) if same(out[t][s], vs[k])]
+            pos.append(hit[0] if len(hit) == 1 else None)
+        if not cx.expect(None not in pos and sorted(pos) == list(range(N)), 'returned vectors are a permutation of the input vectors [%d]' % t, str(pos)):
+            continue
+        if t == ts:
+            cx.expect(pos == list(range(N)), 'reference timeslice unchanged')
+            continue
+        s_out = score(pos, vs)
+        for b in itertools.permutations(range(N)):
+            if list(b) == pos:
+                continue
+            s_b = score(list(b), vs)
+            if cx.mode == 'sym':
+                cx.prove(s_out >= s_b, 'returned order maximises the overlap score [t=%d, vs %s]' % (t, list(b)))
+            else:
+                cx.prove(s_out >= s_b * (1 - 1e-9), 'returned order maximises the overlap score [t=%d, vs %s]' % (t, list(b)))
+
+
+HARNESSES = dict(gevp=h_gevp, bad=h_bad, prune=h_prune, sortvec=h_sortvec)
 
 
 def jobs(tier, seed):
@@ -252,6 +340,10 @@ def jobs(tier, seed):
     add('prune', N=3, Ntrunc=2, T=3, pattern=[True, True, True])
     add('prune', N=3, Ntrunc=2, T=4, pattern=[True, True, True, False], base=True)
     add('gevp', N=2, T=3, pattern=[True, True, True], t0=0, sort=None, method='cholesky', ts=1)
+    add('sortvec', N=2, T=3, ts=1, pattern=[True, True, True], ref='skew')
+    add('sortvec', N=2, T=4, ts=3, pattern=[True, False, True, True], ref='eye')
+    for p in (dict(N=3, T=3, ts=1, pattern=[False, True, True], ref='eye'), dict(N=3, T=2, ts=0, pattern=[True, True], ref='skew')):
+        J.append(dict(harness='sortvec', params=p, opts=dict(maxpaths=400)))
     if tier == 'thorough':
         add('gevp', N=2, T=3, pattern=[True, True, True], t0=1, sort='Eigenvalue', method='cholesky')
         add('gevp', N=2, T=4, pattern=[True, True, True, True], t0=0, sort='Eigenvalue', method='eigh')
